@@ -238,6 +238,11 @@ def rule_array_elements(run):
     names = set(et) | {"self._elemtype_"}
     n = 0
     for a in walk_local(f.node):
+        if isinstance(a, ast.Assign) and dotted(a.targets[0]) == "self._value" and isinstance(a.value, ast.BinOp) and isinstance(a.value.op, ast.Mult):
+            n += 1
+            run.ob(False, "Array.__init__", file=ar.rel, line=a.lineno, detail=f"element#{n}", expected="one freshly constructed object per element ([elemtype(..) for ..])",
+                   found=f"{src(a.value)[:60]}: list repetition stores the SAME object in every element (views of different elements alias each other)")
+            continue
         if isinstance(a, ast.Assign) and dotted(a.targets[0]) == "self._value" and isinstance(a.value, (ast.ListComp, ast.List)):
             elts = [a.value.elt] if isinstance(a.value, ast.ListComp) else a.value.elts
             for e in elts:
